@@ -22,6 +22,8 @@ EXPECT = {"FailedRepinUnpins": "FailedCallNoChange", "IndirectRootReported": "In
 
 
 def run(ctx):
+    import os
+    skip_m = bool(os.environ.get("VERIF_SKIP_M"))   # mutation self-tests only: phase M does not depend on the code
     q = ctx.quick
     ctx.assumptions += ["MapDatastore / blockstore / offline exchange / merkledag are correct",
                         "calls are sequential (no interleaving inside the fetch window)",
@@ -33,15 +35,16 @@ def run(ctx):
                        "expectation first, then the as-built alternative of a named deviation. "
                        "non-trivial = history in which the pin sets change at least twice")
     # M: the ideal model satisfies the property ...
-    ctx.tlc_mc("Pinner", "MCPinner.tla", "MCPinner.cfg", timeout=900, coverage=not q)
-    if not q:
-        ctx.tlc_mc("Pinner", "MCPinner.tla", "MCPinner3All.cfg", timeout=1800)
-        ctx.tlc_mc("Pinner", "MCPinner.tla", "MCPinner4.cfg", timeout=2400)
-    # ... and each as-built deviation is exactly a violation of its invariant (thorough; one in quick, rotating)
-    for d in (DEVS if not q else [DEVS[ctx.seed % 3]]):
-        r = ctx.tlc_mc("Pinner", "MCPinner.tla", "MCPinnerDev_%s.cfg" % d, timeout=900, expect_violation=EXPECT[d])
-        if r["violated"] != EXPECT[d]:
-            ctx.broken("as-built model with Dev_C22_%s should violate %s, TLC says %s" % (d, EXPECT[d], r["violated"]))
+    if not skip_m:
+        ctx.tlc_mc("Pinner", "MCPinner.tla", "MCPinner.cfg", timeout=1800, coverage=not q)
+        if not q:
+            ctx.tlc_mc("Pinner", "MCPinner.tla", "MCPinner3All.cfg", timeout=3600)
+            ctx.tlc_mc("Pinner", "MCPinner.tla", "MCPinner4.cfg", timeout=3600)
+        # ... and each as-built deviation is exactly a violation of its invariant (thorough: all; quick: one, rotating)
+        for d in (DEVS if not q else [DEVS[ctx.seed % 3]]):
+            r = ctx.tlc_mc("Pinner", "MCPinner.tla", "MCPinnerDev_%s.cfg" % d, timeout=1800, expect_violation=EXPECT[d])
+            if r["violated"] != EXPECT[d]:
+                ctx.broken("as-built model with Dev_C22_%s should violate %s, TLC says %s" % (d, EXPECT[d], r["violated"]))
     # G
     sets = [("sg", ctx.tlc_gen("Pinner", "GenPinner.tla", "GenPinnerSG2.cfg" if q else "GenPinnerSG2Full.cfg", timeout=1800))]
     if not q:
